@@ -259,8 +259,16 @@ pub fn cam_sweep(cam: Cam) -> (u64, Vec<(String, String)>) {
                 for r in 0..64u8 {
                     let reg = r * 4;
                     let df = DeviceFunction { bus, device: dev, function: func };
-                    let o = cam.cam_offset(df, reg);
                     n += 1;
+                    let o = match crate::util::catch(|| cam.cam_offset(df, reg)) {
+                        Ok(o) => o,
+                        Err(p) => {
+                            if out.len() < 4 {
+                                out.push(("cam-offset-range".into(), format!("{:?} offset for {}:{}.{} reg {:#x}: the library panicked ({}); every such tuple has an offset inside the window", cam, bus, dev, func, reg, p)));
+                            }
+                            continue;
+                        }
+                    };
                     if o >= size || o % 4 != 0 {
                         if out.len() < 4 {
                             out.push(("cam-offset-range".into(), format!("{:?} offset for {}:{}.{} reg {:#x} = {:#x} outside window {:#x} or unaligned", cam, bus, dev, func, reg, o, size)));
@@ -336,13 +344,20 @@ pub fn enumerate_case(pop: u8) -> Vec<(String, String)> {
 
 /// The same with chosen raw header-type bytes (bit 7 = multi-function, bits 0..6 = layout).
 pub fn enumerate_case_with(pop: u8, header_types: [u8; 6]) -> Vec<(String, String)> {
+    enumerate_case_ids(pop, header_types, None)
+}
+
+/// The same with chosen (vendor, device) ids per slot: a function is present iff its vendor id is
+/// not 0xffff, whatever its device id (0x0000 and 0xffff are device ids like any other).
+pub fn enumerate_case_ids(pop: u8, header_types: [u8; 6], ids: Option<[(u16, u16); 6]>) -> Vec<(String, String)> {
     let slots: [(u8, u8); 6] = [(0, 0), (0, 1), (0, 7), (1, 0), (31, 0), (31, 7)];
     let busno = 5u8;
     let mut b = PciBusState::default();
     let mut want = vec![];
     for (i, (d, f)) in slots.iter().enumerate() {
         if pop & (1 << i) != 0 {
-            let mut pf = PciFunc::new(0x1000 + i as u16 * 0x111, 0x2000 + i as u16 * 0x101);
+            let (ven, dev) = ids.map(|x| x[i]).unwrap_or((0x1000 + i as u16 * 0x111, 0x2000 + i as u16 * 0x101));
+            let mut pf = PciFunc::new(ven, dev);
             pf.class = 0x10 + i as u8;
             pf.subclass = 0x20 + i as u8;
             pf.prog_if = 0x30 + i as u8;
